@@ -106,6 +106,15 @@ func checkC17(ix *index, add addFn) {
 					cutSame = true
 				}
 			}
+			// ... or had ended for the client before (a failed write makes the reader
+			// exit although the network only notices later)
+			for j := 0; j < i; j++ {
+				q := &ix.tr[j]
+				if q.Conn == r.Conn && (q.Kind == "cut" || q.Kind == "close" || (q.Kind == "write" && q.Err != "")) {
+					cutSame = true
+					break
+				}
+			}
 			if cutSame {
 				continue
 			}
